@@ -23,8 +23,9 @@ RULE = ('enumerated part: tables = (shape r x c with 1 <= r, c <= 3, column type
         'incl. fillna(Frame/Series) with partially covering, reordered labels. One evaluation = (table, layout, operation with its '
         'arguments); non-trivial = the table holds at least one missing cell; distinct = hash of (table, layout, operation family '
         'in directional/sided/mark/drop/fill/count) — the limit / axis / value variants of a family count once')
-EXPLANATION = ('thorough: the enumerated part is complete for every shape <= 3x3; quick: complete for every shape with r*c <= 6 '
-               '(all of <= 3x3 except 3x3) and a seeded 1/16 sample of the 3x3 tables; Series part complete in both tiers. Completeness '
+EXPLANATION = ('thorough: the enumerated part is complete for every shape <= 3x3; quick: complete for the shapes 1x1, 1x2, 2x1, 2x2, 1x3, '
+               '3x1, 3x2 (every row pattern x layout x limit of a 3-column row is in 1x3) plus a seeded 1/8 sample of the 2x3 and 1/40 of '
+               'the 3x3 tables; Series part complete in both tiers. Completeness '
                'is over (shape, column-type word, missing pattern, block layout, operation battery) with one fixed non-missing value '
                'per cell and the None/NaN object marker fixed by cell parity; breakdown.exh_tables counts the tables per shape')
 EXHAUSTIVE = {'quick': True, 'thorough': True}
@@ -56,7 +57,7 @@ REQUIRED_ANCHORS = ['util.isna_array', 'util.binary_transition', 'util.slices_fr
                     'series.Series.dropna', 'series.Series.count', 'frame.Frame.fillna', 'frame.Frame.dropna', 'frame.Frame.count']
 REQUIRED_TALLIES = [('bridge', 'axis1_fill_source_in_another_block'), ('bridge', 'axis1_run_crossing_blocks_cut_by_limit'),
                     ('bridge', 'axis1_sided_run_crossing_blocks'), ('container_fill', 'frame:partly_covered'),
-                    ('container_fill', 'series:partly_covered'), ('exh_shape_complete', '2x3'), ('exh_shape_complete', '3x2')]
+                    ('container_fill', 'series:partly_covered'), ('exh_shape_complete', '1x3'), ('exh_shape_complete', '3x2'), ('exh_tables', '3x3')]
 
 NAN = float('nan')
 
@@ -255,28 +256,42 @@ def _series_op(spec, rng):
 
 
 def probes(ctx):
-    return []
+    """one literal case per known finding."""
+    f1 = F.FrameSpec(['r0', 'r1'], ['a'], 'str', 'str', ['float64'], [[NAN], [1.5]], None)
+    f0c = F.FrameSpec(['r0', 'r1'], [], 'str', 'str', [], [[], []], None)
+    f0r = F.FrameSpec([], ['a', 'b'], 'str', 'str', ['float64', 'float64'], [], None)
+    f2 = F.FrameSpec(['r0', 'r1'], ['a', 'b'], 'str', 'str', ['float64', 'object'], [[NAN, 'x'], [1.5, None]], None)
+    disjoint_rows = F.FrameSpec(['q0', 'q1'], ['a', 'b'], 'str', 'str', ['float64', 'float64'], [[7.0, 8.0], [9.0, 10.0]], None)
+    return [
+        {'kind': 'frame', 'spec': f1, 'layout': [(0, 1, False)], 'go': False, 'ops': [('dropna', 1, 'all')]},
+        {'kind': 'frame', 'spec': f0c, 'layout': [], 'go': False, 'ops': [('isna',), ('forward', 0, 0), ('dropna', 0, 'any')]},
+        {'kind': 'frame', 'spec': f0r, 'layout': [(0, 1, False), (1, 2, False)], 'go': False, 'ops': [('leading', 0.0, 0)]},
+        {'kind': 'frame', 'spec': f2, 'layout': [(0, 1, False), (1, 2, False)], 'go': False, 'ops': [('fillna_frame', disjoint_rows)]},
+    ]
+
+
+_QUICK_COMPLETE = [(1, 1), (1, 2), (2, 1), (2, 2), (1, 3), (3, 1), (3, 2)]
+_QUICK_SAMPLED = {(2, 3): 8, (3, 3): 40}
 
 
 def generate(ctx):
     rng = ctx.rng
-    small = [(nr, nc) for nr in (1, 2, 3) for nc in (1, 2, 3) if nr * nc <= 6]
-    tables = list(_exh_tables(small))
-    for case in tables[ctx.shard::ctx.nshards]:
-        yield case
-    big = list(_exh_tables([(3, 3)]))[ctx.shard::ctx.nshards]
     if ctx.tier == 'quick':
-        big = [big[i] for i in sorted(rng.sample(range(len(big)), len(big) // 16))]
-        for case in big:
-            yield dict(case, sampled=True)
+        for case in list(_exh_tables(_QUICK_COMPLETE))[ctx.shard::ctx.nshards]:
+            yield case
+        for shape, frac in _QUICK_SAMPLED.items():
+            share = list(_exh_tables([shape]))[ctx.shard::ctx.nshards]
+            for i in sorted(rng.sample(range(len(share)), len(share) // frac)):
+                yield dict(share[i], sampled=True)
     else:
-        for case in big:
+        for case in list(_exh_tables([(nr, nc) for nr in (1, 2, 3) for nc in (1, 2, 3)]))[ctx.shard::ctx.nshards]:
             yield case
     for case in list(_exh_series_cases())[ctx.shard::ctx.nshards]:
         yield case
     for _ in range(ctx.n(12000, 240000)):
         if rng.random() < 0.72:
-            spec = _frame_spec(rng)
+            zero = rng.random() < 0.04
+            spec = _frame_spec(rng, min_rows=0 if zero else 1, min_cols=0 if zero else 1, max_rows=2 if zero else 6, max_cols=2 if zero else 6)
             lays = F.layouts(spec.dtypes)
             yield {'kind': 'frame', 'spec': spec, 'layout': rng.choice(lays), 'go': rng.random() < 0.15,
                    'ops': [_frame_op(spec, rng) for _ in range(5)]}
@@ -317,7 +332,7 @@ def _feq(e, g):
 
 class _Table:
     """the input as plain lists with what every judgement needs precomputed once per table."""
-    __slots__ = ('cells', 'rows', 'cols', 'nr', 'nc', 'dtypes', 'ocs', 'omiss', 'n_missing', 'colkind')
+    __slots__ = ('cells', 'rows', 'cols', 'nr', 'nc', 'dtypes', 'ocs', 'omiss', 'n_missing', 'colkind', 'npdtypes')
 
     def __init__(self, cells, rows, cols, dtypes):
         self.cells, self.rows, self.cols, self.dtypes = cells, rows, cols, dtypes
@@ -325,7 +340,13 @@ class _Table:
         self.ocs = [[cs(v) for v in row] for row in cells]
         self.omiss = [[is_missing(v) for v in row] for row in cells]
         self.n_missing = sum(sum(r) for r in self.omiss)
-        self.colkind = [np.dtype(object if d == 'object' else d).kind for d in dtypes]
+        self.npdtypes = [np.dtype(object if d == 'object' else d) for d in dtypes]
+        self.colkind = [d.kind for d in self.npdtypes]
+
+
+def _fill_model(t, exp, filled):
+    """('fill', expected table, filled cells, per-column canonical cells for the exact fast path)."""
+    return ('fill', exp, filled, [[cs(exp[r][c]) for r in range(t.nr)] for c in range(t.nc)])
 
 
 def _model_frame(t, op):
@@ -333,23 +354,19 @@ def _model_frame(t, op):
     k = op[0]
     if k in ('forward', 'backward'):
         lim, ax = op[1], op[2]
-        src = {}
-
-        def fn(line):
-            return R.directional_line(line, k == 'forward', lim)
-        exp, filled = R.apply_lines(t.cells, t.nr, t.nc, ax, fn)
-        return ('fill', exp, filled)
+        exp, filled = R.apply_lines(t.cells, t.nr, t.nc, ax, lambda line: R.directional_line(line, k == 'forward', lim))
+        return _fill_model(t, exp, filled)
     if k in ('leading', 'trailing'):
         val, ax = _value_of(op[1]), op[2]
         exp, filled = R.apply_lines(t.cells, t.nr, t.nc, ax, lambda line: R.sided_line(line, k == 'leading', val))
-        return ('fill', exp, filled)
+        return _fill_model(t, exp, filled)
     if k == 'fillna':
         exp, filled = R.fill_element(t.cells, _value_of(op[1]))
-        return ('fill', exp, filled)
+        return _fill_model(t, exp, filled)
     if k == 'fillna_frame':
         fs = op[1]
         exp, filled = R.fill_container(t.cells, t.rows, t.cols, fs.rows, fs.cols, fs.cells)
-        return ('fill', exp, filled)
+        return _fill_model(t, exp, filled)
     if k == 'isna':
         return ('mark', R.isna_table(t.cells))
     if k == 'notna':
@@ -444,7 +461,11 @@ def _cell_fill_verdict(t, r, c, exp, filled, g, widened):
         e = cs(exp[r][c])
         if _feq(e, g):
             return None
-        return 'missing_cell_not_filled' if _is_missing_cs(g) and not _is_missing_cs(e) else 'filled_value_wrong'
+        if _is_missing_cs(e):
+            # the fill value is itself a missing marker: the cell stays missing, NumPy's object / dtype
+            # conversion may present another marker (NaT -> None)
+            return None if _is_missing_cs(g) else 'filled_value_wrong'
+        return 'missing_cell_not_filled' if _is_missing_cs(g) else 'filled_value_wrong'
     if g == o or (widened and _is_missing_cs(g)):
         return None
     return 'cell_filled_beyond_specification'
@@ -463,8 +484,9 @@ def _is_missing_cs(c):
     return False
 
 
-def _judge_fill(ctx, t, f, out, exp, filled, klass, block_of):
+def _judge_fill(ctx, t, f, out, model, klass, block_of):
     import static_frame as sf
+    _, exp, filled, exp_cs = model
     if not isinstance(out, sf.Frame) or tuple(out.shape) != (t.nr, t.nc):
         ctx.violation('fill_changed_shape', detail={'got': canon.brief(canon.snap(out))}, klass=klass)
         return
@@ -474,12 +496,14 @@ def _judge_fill(ctx, t, f, out, exp, filled, klass, block_of):
     cols = canon.frame_columns(out) if t.nc else []
     for c in range(t.nc):
         arr = cols[c]
-        widened = str(arr.dtype) != str(np.dtype(object if t.dtypes[c] == 'object' else t.dtypes[c]))
         got = canon.arr_cells(arr)
+        if got == exp_cs[c]:
+            continue  # exactly the model's cells
+        widened = arr.dtype != t.npdtypes[c]
         for r in range(t.nr):
             bad = _cell_fill_verdict(t, r, c, exp, filled, got[r], widened)
             if bad:
-                kl = dict(klass, col_dtype_kind=t.colkind[c], col_widened=widened)
+                kl = dict(klass, col_dtype_kind=t.colkind[c], col_widened=bool(widened))
                 if block_of is not None:
                     kl['col_block_width'] = block_of.count(block_of[c])
                 ctx.violation(bad, detail={'cell': (r, c), 'input': t.ocs[r][c],
@@ -572,6 +596,13 @@ def _bridge_tallies(ctx, t, op, block_of):
                 ctx.tally('bridge', 'axis1_sided_run_crossing_blocks')
 
 
+def _common(labels, other):
+    """how many of `labels` the other label list holds: 'none' (also when there are no labels) / 'some' / 'all'."""
+    have = {cs(x) for x in other}
+    n = sum(1 for l in labels if cs(l) in have)
+    return 'none' if n == 0 else 'all' if n == len(labels) else 'some'
+
+
 def _frame_battery(ctx, t, f, lay, ops, models, case_id, extra_klass):
     """run and judge a list of operations on one built frame."""
     block_of = []
@@ -580,22 +611,28 @@ def _frame_battery(ctx, t, f, lay, ops, models, case_id, extra_klass):
     lname = F.layout_name(lay)
     nontrivial = t.n_missing > 0
     base = dict(extra_klass, nblocks=len(lay), multi_block=len(lay) > 1, shape_class=_shape_class(t.nr, t.nc),
+                zero_rows=t.nr == 0, zero_cols=t.nc == 0, single_1d_block=len(lay) == 1 and not lay[0][2],
                 any_2d_block=any(two for _, _, two in lay), all_missing=t.n_missing == t.nr * t.nc and t.nr * t.nc > 0)
+    fps = {}
     for i, op in enumerate(ops):
         fam = _FAMILY[op[0]]
-        ctx.evaluation((case_id, lname, fam), nontrivial)
+        if fam not in fps:
+            fps[fam] = canon.fp((case_id, lname, fam))
+        ctx.evaluation(fps[fam], nontrivial)
         model = models[i] if models is not None else _model_frame(t, op)
         if len(op) > 2 and op[0] in ('forward', 'backward', 'leading', 'trailing') and op[2] == 1 and len(lay) > 1:
             _bridge_tallies(ctx, t, op, block_of)
         out, exc = _call(lambda: _run_frame(f, op))
         klass = _op_klass('frame', op, base)
+        if op[0] == 'fillna_frame':
+            klass['container_common_rows'], klass['container_common_cols'] = _common(t.rows, op[1].rows), _common(t.cols, op[1].cols)
         if exc is not None:
             ctx.violation('valid_call_raised', detail={'exception': type(exc).__name__, 'message': str(exc)[:300], 'op': canon.brief(op, 300),
                                                        'layout': lname, 'dtypes': t.dtypes},
                           klass=dict(klass, exception=type(exc).__name__))
             continue
         if model[0] == 'fill':
-            _judge_fill(ctx, t, f, out, model[1], model[2], klass, block_of)
+            _judge_fill(ctx, t, f, out, model, klass, block_of)
         elif model[0] == 'mark':
             _judge_mark(ctx, t, f, out, model[1], klass)
         elif model[0] == 'drop':
@@ -651,11 +688,10 @@ def _check_frame(case, ctx):
     for op in case['ops']:
         ctx.tally('ops', 'frame.' + op[0])
         if op[0] == 'fillna_frame':
-            fs = op[1]
-            cr = sum(1 for l in spec.rows if cs(l) in {cs(x) for x in fs.rows})
-            cc = sum(1 for l in spec.cols if cs(l) in {cs(x) for x in fs.cols})
-            full = cr == t.nr and cc == t.nc
-            ctx.tally('container_fill', 'frame:' + ('nothing_covered' if cr * cc == 0 else 'fully_covered' if full else 'partly_covered'))
+            cr, cc = _common(spec.rows, op[1].rows), _common(spec.cols, op[1].cols)
+            ctx.tally('container_fill', 'frame:' + ('nothing_covered' if 'none' in (cr, cc) else 'fully_covered' if (cr, cc) == ('all', 'all')
+                                                    else 'partly_covered'))
+            ctx.tally('container_overlap', f'rows={cr},cols={cc}')
     ctx.sample({'frame': spec.brief(), 'layout': F.layout_name(lay), 'ops': [canon.brief(o, 80) for o in case['ops']]})
     _frame_battery(ctx, t, f, lay, case['ops'], None, ('frame', repr(spec), case.get('go')),
                    {'exh': False, 'row_kind': spec.row_kind, 'col_kind': spec.col_kind, 'go': bool(case.get('go'))})
@@ -722,11 +758,17 @@ def _series_battery(ctx, spec, ops, case_id, extra_klass):
     base = dict(extra_klass, n=min(n, 3), index_kind=spec.kind, dtype_kind=t.colkind[0],
                 all_missing=n > 0 and t.n_missing == n)
     in_labels = canon.snap_index(s.index)['labels']
+    fps = {}
     for op in ops:
-        ctx.evaluation((case_id, 'series', _FAMILY[op[0]]), t.n_missing > 0)
+        fam = _FAMILY[op[0]]
+        if fam not in fps:
+            fps[fam] = canon.fp((case_id, 'series', fam))
+        ctx.evaluation(fps[fam], t.n_missing > 0)
         ctx.tally('ops', 'series.' + op[0])
         model = _model_series(values, labels, op)
         klass = _op_klass('series', op, base)
+        if op[0] == 'fillna_series':
+            klass['container_common_labels'] = _common(labels, op[1].labels)
         out, exc = _call(lambda: _run_series(s, op))
         if exc is not None:
             ctx.violation('valid_call_raised', detail={'exception': type(exc).__name__, 'message': str(exc)[:300], 'op': canon.brief(op, 300)},
@@ -756,7 +798,7 @@ def _series_battery(ctx, spec, ops, case_id, extra_klass):
                 ctx.violation('isna_flag_wrong', detail={'input': [t.ocs[i][0] for i in range(n)], 'expected': model[1], 'got': got}, klass=klass)
             continue
         exp, filled = [[v] for v in model[1]], {(i, 0) for i in model[2]}
-        widened = str(out.values.dtype) != str(np.dtype(object if spec.dtype == 'object' else spec.dtype))
+        widened = bool(out.values.dtype != t.npdtypes[0])
         for i in range(n):
             bad = _cell_fill_verdict(t, i, 0, exp, filled, got[i], widened)
             if bad:
@@ -783,8 +825,7 @@ def _check_series(case, ctx):
     ctx.tally('series_index_kind', spec.kind)
     for op in case['ops']:
         if op[0] == 'fillna_series':
-            have = {cs(x) for x in op[1].labels}
-            cov = sum(1 for l in spec.labels if cs(l) in have)
-            ctx.tally('container_fill', 'series:' + ('nothing_covered' if cov == 0 else 'fully_covered' if cov == len(spec.labels) else 'partly_covered'))
+            cov = _common(spec.labels, op[1].labels)
+            ctx.tally('container_fill', 'series:' + {'none': 'nothing_covered', 'all': 'fully_covered', 'some': 'partly_covered'}[cov])
     ctx.sample({'series': spec.brief(), 'ops': [canon.brief(o, 80) for o in case['ops']]})
     _series_battery(ctx, spec, case['ops'], ('series', repr(spec)), {'exh': False})
